@@ -180,13 +180,19 @@ STRUCTURES = ["indep", "same_net", "const_net", "same_ne", "sep2d", "same_te", "
 NEEDS_DONOR = ("same_net", "const_net", "sep2d", "const_donor")
 
 
-def gen_case(rng, idx, rep, stream, z=None, force_donor=False, structure="indep"):
+def gen_case(rng, idx, rep, stream, z=None, force_donor=False, structure="indep", layout="C"):
     z = z or rng.choice([1, 1, 2, 2, 3, 4, 5, 6, 6, 7, 8, 9, 10, 10, 11, 12, 13, 14, 15, 16, 17, 18, 18])
     realistic = rng.random() < 0.7
     donor_mode = rng.choice(["none"] * 3 + ["donor"] * 6 + ["donor_zero"] * 2 + ["donor_nodens"] * 2
                             + ["donor_negzero", "donor_tiny", "dens_nodonor"])
     if rep in ("scalar", "fun1d_scalar"):
         structure = "indep"
+    if rep not in ("array1d", "array2d", "mixed1d"):
+        layout = "C"
+    if layout != "C":
+        structure = "indep"          # profiles that vary along every axis and are not symmetric under the permutation
+        if layout.startswith("all_"):
+            force_donor = True       # the donor profile is one of the arrays that share the layout
     if structure == "sep2d" and rep not in ("array2d", "fun2d", "interp2d"):
         structure = "same_net"
     if force_donor or structure in NEEDS_DONOR:
@@ -218,7 +224,11 @@ def gen_case(rng, idx, rep, stream, z=None, force_donor=False, structure="indep"
     k_lo = max(-20, int(math.ceil(math.log2(1e-2 / p_lo))))
     k_hi = min(20, int(math.floor(math.log2(1e10 / p_hi))))
     scale_pow2 = rng.randint(k_lo, k_hi) if k_lo <= k_hi else 0
-    return {"idx": idx, "rep": rep, "stream": stream, "structure": structure, "sep_swap": rng.random() < 0.5, "span": STREAMS[stream]["span"], "Z": z,
+    if layout != "C" and shape == (1,):
+        shape = (3,)
+    if layout != "C" and rep == "array2d":
+        shape = rng.choice([(2, 3), (3, 2)])        # non-square
+    return {"idx": idx, "rep": rep, "stream": stream, "layout": layout, "structure": structure, "sep_swap": rng.random() < 0.5, "span": STREAMS[stream]["span"], "Z": z,
             "scale": scale0, "ne_decade": ne_dec,
             "donor_mode": donor_mode, "donor": donor, "shape": shape,
             "tag": "s%d" % rng.getrandbits(40), "n_species": rng.choice([0, 1, 2]),
@@ -521,6 +531,56 @@ def run_case(ib, rec, case, rng_mod):
             species_pts[si] = [[max(v, 0.0) for v in row] for row in species_pts[si]]
             species_reps[si] = reorder({c: np.array(row).reshape(shape) for c, row in enumerate(species_pts[si])})
             case.setdefault("species_sources", []).append("clamped-to-array")
+    # ---- memory layout of the array arguments (values and indices unchanged): all arrays in the same non-C layout, one
+    # array alone, or a random mixture.  F = Fortran order, T = transposed view of a C buffer, R = reversed view (negative
+    # strides), S = strided view of a larger buffer.
+    layout = case.get("layout", "C")
+
+    def in_layout(arr, kind):
+        arr = np.asarray(arr)
+        if kind == "C" or arr.size <= 1:
+            return arr
+        if kind in ("F", "T") and arr.ndim == 1:
+            kind = "R"
+        if kind == "F":
+            v = np.asfortranarray(arr)
+        elif kind == "T":
+            v = np.ascontiguousarray(arr.T).T
+        elif kind == "R":
+            rev = (slice(None, None, -1),) * arr.ndim
+            v = np.ascontiguousarray(arr[rev])[rev]
+        else:
+            big = np.zeros(tuple(2 * n + 1 for n in arr.shape), dtype=arr.dtype)
+            sl = tuple(slice(1, None, 2) for _ in arr.shape)
+            big[sl] = arr
+            v = big[sl]
+        assert v.shape == arr.shape and v.dtype == arr.dtype and np.array_equal(v, arr)
+        assert not v.flags["C_CONTIGUOUS"] or (kind in ("F", "T") and 1 in v.shape)
+        return v
+
+    arg_layouts = {}
+    if layout != "C":
+        names = ["n_e", "t_e", "tcx_donor_n", "element_density"] + ["species%d" % i for i in range(len(species_reps))]
+        kinds = ["F", "T", "R", "S"]
+        if layout.startswith("all_"):
+            arg_layouts = {nm: layout[4:] for nm in names}
+        elif layout == "alone":
+            arg_layouts = {rng.choice(names[:4]): rng.choice(kinds)}
+        else:
+            arg_layouts = {nm: rng.choice(kinds + ["C"]) for nm in names}
+        c_contig = {"n_e": ne_rep, "t_e": te_rep, "tcx_donor_n": nd_rep, "element_density": nel_rep, "species": list(species_reps)}
+        if isinstance(ne_rep, np.ndarray):
+            ne_rep = in_layout(ne_rep, arg_layouts.get("n_e", "C"))
+        if isinstance(te_rep, np.ndarray):
+            te_rep = in_layout(te_rep, arg_layouts.get("t_e", "C"))
+        if isinstance(nd_rep, np.ndarray):
+            nd_rep = in_layout(nd_rep, arg_layouts.get("tcx_donor_n", "C"))
+        if isinstance(nel_rep, np.ndarray):
+            nel_rep = in_layout(nel_rep, arg_layouts.get("element_density", "C"))
+        for si in range(len(species_reps)):
+            if isinstance(species_reps[si], dict) and all(isinstance(v, np.ndarray) for v in species_reps[si].values()):
+                species_reps[si] = {k: in_layout(v, arg_layouts.get("species%d" % si, "C")) for k, v in species_reps[si].items()}
+        case["arg_layouts"] = dict(arg_layouts)
     if rng.random() < 0.5:
         species_reps = tuple(species_reps)        # the container of species: list or tuple
     # ---- the property's domain, asserted on the values every representation yields at every evaluated point ----
@@ -685,6 +745,22 @@ def run_case(ib, rec, case, rng_mod):
         d2 = flat(ib.from_elementdensity(ad, el, nel_rep, ne_rep, te_rep, *donor_args, **dk, **kw))
         if d2 != [o["values"] for pt in points for o in pt["outs"] if o["kind"] == "dens"]:
             extra_fails.append(("a second call with the same objects returns a different result", "from_elementdensity[%s]" % rep))
+    # same values, different memory layout => identical result arrays (implementation-level check)
+    if layout != "C" and rep in ("array1d", "array2d", "mixed1d"):
+        cc = lambda r: np.ascontiguousarray(r).copy() if isinstance(r, np.ndarray) else r
+        dargs_c = tuple(cc(a) for a in donor_args)
+        dk_c = {k_: cc(v) for k_, v in dk.items()}
+        sp_c = [({k_: cc(v) for k_, v in sp.items()} if isinstance(sp, dict) else cc(sp)) for sp in species_reps]
+        for nm, got, ref in (
+                ("fractional_abundance", ib.fractional_abundance(ad, el, ne_rep, te_rep, *donor_args, **dk, **kw),
+                 ib.fractional_abundance(ad, el, cc(ne_rep), cc(te_rep), *dargs_c, **dk_c, **kw)),
+                ("from_elementdensity", ib.from_elementdensity(ad, el, nel_rep, ne_rep, te_rep, *donor_args, **dk, **kw),
+                 ib.from_elementdensity(ad, el, cc(nel_rep), cc(ne_rep), cc(te_rep), *dargs_c, **dk_c, **kw)),
+                ("match_plasma_neutrality", ib.match_plasma_neutrality(ad, el, species_reps, ne_rep, te_rep, *donor_args, **dk, **kw),
+                 ib.match_plasma_neutrality(ad, el, sp_c, cc(ne_rep), cc(te_rep), *dargs_c, **dk_c, **kw))):
+            if not all(np.array_equal(np.asarray(got[c]), np.asarray(ref[c])) for c in range(z + 1)):
+                extra_fails.append(("same values in a different memory layout give a different result array",
+                                    "%s[%s], layouts %s" % (nm, rep, arg_layouts)))
     for nm, before in inputs_before:
         now = {"n_e": ne_rep, "t_e": te_rep, "tcx_donor_n": nd_rep, "element_density": nel_rep}[nm]
         if not (now.shape == before.shape and now.dtype == before.dtype and np.array_equal(now, before)):
